@@ -280,7 +280,7 @@ namespace avel {
 
         #if (defined(AVEL_AVX512VL) && defined(AVEL_AVX512BW)) || defined(AVEL_AVX10_1)
         auto mask = b << N;
-        return mask16x16u{__mmask16((decay(m) & ~mask) | mask)};
+        return mask16x16u{__mmask16((decay(m) & ~(decltype(mask)(1) << N)) | mask)};
 
         #elif defined(AVEL_AVX2)
         return mask16x16u{_mm256_insert_epi16(decay(m), b ? - 1 : 0, N)};
